@@ -72,6 +72,14 @@ class Opaque(T):
     def __repr__(self): return 'Opaque(%s)' % self.name
 
 
+class StrCat(T):
+    """a string of unknown length given as  P ++ L  where L (k symbolic code points) is its last
+    sep-separated piece: no sep in L, and P is empty or ends with sep.  Every string has exactly one
+    such decomposition, so the cases k = 0..K are a complete split of 'last piece not longer than K'"""
+    def __init__(self, k, sep='/'): self.k, self.sep = k, sep
+    def __repr__(self): return 'StrCat(%d,%r)' % (self.k, self.sep)
+
+
 class MutOpaque(T):
     """mutable abstract object: a heap cell holding the current abstract value"""
     def __init__(self, name): self.name = name
@@ -123,7 +131,7 @@ def zsort(t):
         return z3.IntSort()
     if t is Bool:
         return z3.BoolSort()
-    if t is Str or isinstance(t, StrN):
+    if t is Str or isinstance(t, (StrN, StrCat)):
         return z3.StringSort()
     if isinstance(t, Tup):
         return tuple_sort(t.ts)[0]
